@@ -824,3 +824,27 @@ pub fn pb_btree_map_r<const LK: usize, const VARIANT: u8>() {
     kani::cover!(true, "reached end");
     core::mem::forget(out);
 }
+
+/// (r) repeated int32, ONE element, packed or unpacked, from reference bytes; the element is a
+/// symbolic varint of L bytes and nothing follows it (cheap form of pb_rep_int32_r)
+#[cfg(kani)]
+pub fn pb_rep_int32_r1<const PACKED: bool, const L: usize>() {
+    let tag = 7u32;
+    let (v0, u0) = sym_varint::<L>();
+    let mut o = rp::Out::<16>::new();
+    if PACKED {
+        rp::key(&mut o, tag, rp::WT_LEN);
+        o.put(L as u8);
+    } else {
+        rp::key(&mut o, tag, rp::WT_VARINT);
+    }
+    o.put_all(&v0);
+    let mut out: Vec<i32> = Vec::with_capacity(2);
+    let mut r: &[u8] = &o.b[..o.n];
+    let (t2, w2) = okd(enc::decode_key(&mut r));
+    okd(enc::int32::merge_repeated(w2, &mut out, &mut r, DecodeContext::default()));
+    kani::assert(r.is_empty(), "C05: decoder consumed exactly the encoded bytes");
+    kani::assert(out.len() == 1 && out[0] == u0 as i32, "C05/C06: a repeated int32 element decodes from the packed and from the unpacked form");
+    kani::cover!(true, "reached end");
+    core::mem::forget(out);
+}
